@@ -133,6 +133,7 @@ func (h *Hist) Do(thread, name string, arg interface{}, f func() (interface{}, e
 	op.Ret = h.S.Stamp()
 	op.TRet = h.S.Now()
 	op.Returned = true
+	h.S.Event("op", op.String())
 	return op
 }
 
